@@ -264,6 +264,28 @@ class Gen:
         st += clean_send(self.newpid())
         return dict(run=run, cfg=dict(R=R, T=T, H=H), steps=st, tag='hb-foreign')
 
+    def writefail_conn(self, run):
+        """C09: a transient local error strikes a write of the connection management itself - the disconnect response that
+        answers the gateway's disconnect request (the reconnect is owed all the same), a connection-state request (the
+        heartbeat may fail: a reconnect is permitted, and the tunnel works afterwards) or a connect request of the reconnect
+        (the tunnel terminates)."""
+        rng = self.rng
+        R, T, H = rng.choice([(2_000, 6_001, 8_003), (1_000, 5_003, 20_011), (2_000, 6_001, BIGH)])
+        kind = rng.choice(['DiscRes', 'DiscRes', 'ConnStateReq', 'ConnReq'] if H != BIGH else ['DiscRes', 'DiscRes', 'ConnReq'])
+        st = [S('connect')]
+        if rng.random() < 0.5:
+            st += clean_send(self.newpid())
+        if rng.random() < 0.5:
+            st += clean_tele(self.newpid())
+        st += [S('gwpolicy', s='nextchan', n=rng.choice([1, 2, 3])), S('sockfail', act='once', svc=kind)]
+        if kind == 'ConnStateReq':
+            st += [S('adv', d=odd(rng, H)), S('flush', n=3), S('adv', d=odd(rng, R)), S('flush', n=3)]
+        else:
+            st += [S('gwgiveup'), S('flush', n=3), S('adv', d=odd(rng, R)), S('flush', n=3)]
+        st += clean_send(self.newpid()) + clean_tele(self.newpid())
+        st += [S('adv', d=odd(rng, T)), S('flush', n=3), S('recv'), S('recv')]
+        return dict(run=run, cfg=dict(R=R, T=T, H=H), steps=st, tag='writefail-' + kind)
+
     def heartbeat(self, run, n=40):
         rng = self.rng
         R, T, H = rng.choice([(500_000, 10_000_000, 10_000_000), (2_000, 6_001, 8_003), (2_000, 4_001, 9_007),
@@ -318,6 +340,45 @@ class Gen:
                 S('adv', d=odd(rng, T)), S('census')]
         tail = [s for s in st[pos:pos + rng.randrange(0, 6)] if s['op'] not in ('connect', 'new', 'reader', 'drain')]
         return dict(run=base['run'], cfg=cfg, steps=st[:pos] + ins + tail, tag='close+' + base.get('tag', ''))
+
+    def close_with_parked(self, run, size):
+        """C10: the application has not read Inbound for a whole burst of `size` accepted telegrams (each parked in a helper
+        goroutine, or wherever the client keeps them) when Close is called: Close returns in time all the same."""
+        rng = self.rng
+        R, T = rng.choice([(2_000, 14_000), (1_000, 4_500), (3_000, 13_000)])
+        base = self.pid % 60000 + 2
+        self.pid += size
+        st = [S('connect'), S('burst', n=size, p=base)]
+        if rng.random() < 0.5:
+            st.append(S('adv', d=odd(rng, R)))
+        # (nobody reads Inbound until Close's bound has passed: a Close that waits for the application to make room is late)
+        st += [S('close', g=1), S('flush', n=1), S('adv', d=odd(rng, R)), S('census'), S('send', g=7, p=self.newpid()),
+               S('adv', d=odd(rng, 6 * T)), S('census'), S('recv')]
+        return dict(run=run, cfg=dict(R=R, T=T, H=BIGH), steps=st, tag='close-with-parked')
+
+    def ackfail_order(self, run, group=False):
+        """C17 / C04: the application is ready all the time; the write of one telegram's acknowledgement fails with a transient
+        error, the gateway goes on with the next telegrams all the same (or repeats), later one of them is repeated: every
+        accepted telegram is handed over in the order of acceptance, none is held back."""
+        rng = self.rng
+        R, T = rng.choice([(2_000, 14_000), (1_000, 4_500), (3_000, 13_000)])
+        st = [S('connect'), S('reader', act='on')]
+        n = rng.randrange(4, 9)
+        bad = rng.randrange(0, n - 2)
+        rep = rng.randrange(bad + 1, n)
+        for i in range(n):
+            pid = self.newpid()
+            if i == bad:
+                st.append(S('sockfail', act='once', svc='TunnelRes'))
+            st.append(S('inject', svc='TunnelReq', ch='own', rel=0, p=pid))
+            if i == bad and rng.random() < 0.4:
+                st.append(S('inject', svc='TunnelReq', ch='own', rel=-1, p=pid))     # (the gateway repeats the unacknowledged one first)
+            if i == rep:
+                st.append(S('inject', svc='TunnelReq', ch='own', rel=-1, p=pid))     # a repetition of a later telegram
+            if rng.random() < 0.3:
+                st.append(S('adv', d=odd(rng, R // 2)))
+        st += [S('adv', d=odd(rng, R)), S('reader', act='off'), S('drain')]
+        return dict(run=run, cfg=dict(R=R, T=T, H=BIGH, group=group), steps=st, tag='ackfail-order')
 
     # ---- C17: bursts ------------------------------------------------------------
     def burst(self, run, size, mode, group=False, tcp=False):
